@@ -508,7 +508,7 @@ theorem TimeInv.closed : Closed (And2 Wf LifeInv) TimeInv where
   fdtAdvance := fun _ _ now _ h _ _ => h.ofFdtAdvance now
   fileStart := fun _ _ _ _ tk _ hb h _ hfn => TimeInv.ofFileStart' tk _ rfl rfl hb.1 h hfn
   pkt := fun _ _ _ _ _ _ _ _ _ hb h _ hf _ hg he => h.ofPkt hb.1 hf hg he
-  done := fun _ _ _ _ now _ _ _ h _ hf _ _ _ => h.ofDone now hf
+  done := fun _ _ _ _ now _ _ _ h _ hf _ => h.ofDone now hf
   fdtPkt := fun _ _ c f now idx _ e _ h _ _ _ _ _ =>
     h.neutral (e := Ev.fdt now c.key f.fdtId idx) trivial rfl (TCoreRel.refl rfl) (fun pc hpc => hpc)
   fdtDone := fun _ _ c _ now _ _ h _ _ _ _ _ => h.ofFdtDone c.key now
